@@ -156,6 +156,10 @@ func generate(g *Gen, prop string, n int) {
 		for i := 0; i < n; i++ {
 			g.genMappingIdentityHistory()
 		}
+	case "C09":
+		for i := 0; i < n; i++ {
+			g.genProtoHistory()
+		}
 	case "C17":
 		for i := 0; i < n; i++ {
 			g.genChangeMappingHistory()
